@@ -1,6 +1,6 @@
 (* Props_C05.v — garbage collection never removes retained or recent content (model: GC.v, a mirror of
    repoGarbageCollect).  Statements only; proofs in GCProofs.v. *)
-From Olareg Require Import Base Index Reg RegProofs GC GCProofs.
+From Olareg Require Import Base Index Reg RegProofs GC GCProofs GCTerm.
 Local Open Scope list_scope.
 
 (* Under every policy: the blob of a top-level entry that is tagged, or untagged while untagged collection
@@ -44,3 +44,12 @@ Proof. exact gc_repo_blobs_sub. Qed.
 Theorem C05_integrity_preserved : forall cfg pol E s g, BlobsOK E s -> BlobsOK E (fst (gstep cfg pol E s g)).
 Proof. exact gstep_blobs_ok. Qed.
 Print Assumptions C05_integrity_preserved.
+
+(* every collection completes (the mark loop terminates on every index, also a hand-written or damaged one), and the blob of a
+   root entry - tagged, untagged with untagged collection off, or younger than the grace period - is not among what it deletes *)
+Theorem C05_roots_kept_every_collection : forall E pol now blobs i e,
+  In e (top i) -> ann_get RefSubject e = "" -> has_blob blobs (d_dig e) = true ->
+  (nonempty (ann_get RefName e) = true \/ gp_untagged pol = false \/ young pol now blobs (d_dig e) = true) ->
+  exists ri deleted, repo_gc E pol now blobs i = Some (ri, deleted) /\ ~ In (d_dig e) deleted.
+Proof. exact gc_keeps_root_total. Qed.
+Print Assumptions C05_roots_kept_every_collection.
